@@ -644,6 +644,37 @@ def routeHTTPPreFix {ι} (tbl : List (Route ι)) (method : Bytes) (u : Url) : Ro
     | some last => iteratePreFix comps last (tbl.filter fun r => r.httpMethod == method)
   | _ => .error .invalidArgument
 
+/-! ### a single verb split before the route loop (grpc-gateway `ServeMux` style; seeded change C03-m10)
+
+  NOT what `RouteHTTP` does — kept to state why the verb must be cut per route: behind a closing `}` the template
+  verb is everything after the first `:` (gwbased `tokenize`), so it may contain `:` itself. -/
+
+/-- `idx := strings.LastIndexByte(last, ':'); idx > 0 && idx < len(last)-1` ⇒ `(last[:idx], last[idx+1:])` -/
+def splitLastColon (last : Bytes) : Bytes × Bytes :=
+  match lastIndexByte 58 last with
+  | some idx => if 0 < idx ∧ idx < last.length - 1 then (last.take idx, last.drop (idx + 1)) else (last, [])
+  | none => (last, [])
+
+def iteratePreSplit {ι} (comps : List Bytes) (verb : Bytes) : List (Route ι) → RouteResult ι
+  | [] => .error .notFound
+  | r :: rs =>
+    match r.run comps verb with
+    | .ok params => .found r.id params
+    | .malformed => .error .invalidArgument
+    | .notMatch => iteratePreSplit comps verb rs
+    | .fault => iteratePreSplit comps verb rs
+
+def routePathPreSplit {ι} (tbl : List (Route ι)) (method : Bytes) (path : Bytes) : RouteResult ι :=
+  match path with
+  | 47 :: p =>
+    let comps := splitSlash p
+    match comps.getLast? with
+    | none => .error .notFound
+    | some last =>
+      let sv := splitLastColon last
+      iteratePreSplit (comps.dropLast ++ [sv.1]) sv.2 (tbl.filter fun r => r.httpMethod == method)
+  | _ => .error .invalidArgument
+
 /-! ## buildPatternRoutes -/
 
 /-- a binding as `buildPattern` sees it: `pattern = none` when `httprule.Parse` rejected the text -/
